@@ -126,16 +126,13 @@ def main():
         cases = gen_cases(ck)
     out = sg.run_cases(ck, cases, step, limit, per_shard=40)
     byid = {c["id"]: (c, r, code) for c, r, code in out}
-    n_viol = 0
-    for c, r, code in out:
-        if n_viol >= 5:
-            break
+    def classify(c, r, code):
         detail = {"case": c, "impl_trace": sg.pretty_trace(r), "script": sg.script_summary(c["script"])}
         msg = None
         if code & 2:
             msg = ("a connection's output differs from the sequential reference (items in order with the "
                    "service's flags, pipelined calls answered in order after the stream ends)")
-            detail["model_and_spec"] = sg.show_model(ck, c, r, step, limit)
+            detail["want_model"] = True
         elif "pair" in c and c["pair"] in byid:
             # c is the run without write failures, c0 the run with them
             c0, r0, _ = byid[c["pair"]]
@@ -151,11 +148,17 @@ def main():
                     msg = what
                     detail.update({"case": c0, "script": sg.script_summary(c0["script"]),
                                    "impl_trace": sg.pretty_trace(r0), "impl_trace_without_failure": sg.pretty_trace(r)})
-                    break
-        if msg:
+        return msg, detail
+    n_viol = 0
+    verdicts = [(c, r, code) + classify(c, r, code) for c, r, code in out]
+    for c, r, code, msg, detail in verdicts:
+        if msg and n_viol < 5:
             n_viol += 1
+            if detail.pop("want_model", False):
+                detail["model_and_spec"] = sg.show_model(ck, c, r, step, limit)
             ck.violation(msg + " [%s]" % c["tag"], detail, tag="c%d" % c["id"])
-        elif code:
+    for c, r, code, msg, detail in verdicts:
+        if not msg and code and n_viol < 5:
             n_viol += 1
             sg.report_model_mismatch(ck, c, r, step, limit, " (outputs agree with the sequential reference)")
     sg.coverage(ck, cases, out, step, limit, {
